@@ -325,7 +325,9 @@ def sub_img_each(acc, shard, nshards, tier, seed):
 # --------------------------------------------------------------------------- (admonition)
 
 MD_TEXT = ["plain words", "with *emphasis* and `code`", "a [link](https://e.org)", "two\nlines", "é中", "a <b>bold</b> tag", "# not a heading",
-           "- not a list", "1. one", "> quote"]
+           "- not a list", "1. one", "> quote",
+           # white space that stands alone between two tags / entities is content, too
+           "<kbd>Ctrl</kbd> <kbd>C</kbd>", "&copy; &reg; &#169;", "<b>a</b> <i>b</i>\n<u>c</u>", "<!-- c --> <b>x</b>"]
 TITLES = [None, "Title", "A *styled* title", "T2 `code`", "É title"]
 
 
